@@ -200,7 +200,7 @@ func runC03(rc *fw.RunCtx) {
 		sos.ShortWrite = f.Bool()
 	}
 	if f.Chance(1, 4) {
-		for name := range sfs.Files {
+		for _, name := range sortedKeys(sfs.Files) {
 			if f.Chance(1, 3) {
 				if f.Bool() {
 					sfs.FailOpen[name] = 1
@@ -210,7 +210,7 @@ func runC03(rc *fw.RunCtx) {
 			}
 		}
 	}
-	for name := range sfs.Files {
+	for _, name := range sortedKeys(sfs.Files) {
 		if f.Chance(1, 8) {
 			th.failLeft[strings.TrimSuffix(name, ".risor")] = 1
 		}
